@@ -28,6 +28,15 @@ TrDecode ==
             = {<<Ev.desc.systems[i].id, Ev.desc.systems[i].prio, Ev.desc.systems[i].freq, Ev.desc.systems[i].start, Ev.desc.systems[i].end>> :
               i \in 1..Len(Ev.desc.systems)}
        /\ Len(Ev.final.systems) = Len(Ev.desc.systems)
+       \* timestep 0 of the decoded model: the listed systems that are in their window, by descending priority, ties in listing order
+       /\ LET S  == Ev.desc.systems
+              El == {i \in 1..Len(S) : S[i].start <= 0 /\ 0 <= S[i].end /\ (0 - S[i].start) % S[i].freq = 0}
+              Before(a, b) == S[a].prio > S[b].prio \/ (S[a].prio = S[b].prio /\ a < b)
+          IN Ev.desc.closed \/
+             /\ Len(Ev.final.ran) = Cardinality(El)
+             /\ \A k \in 1..Len(Ev.final.ran) : \E i \in El : S[i].id = Ev.final.ran[k]
+             /\ \A k, n \in 1..Len(Ev.final.ran) : k < n =>
+                   \E a, b \in El : S[a].id = Ev.final.ran[k] /\ S[b].id = Ev.final.ran[n] /\ Before(a, b)
        /\ [i \in 1..Len(Ev.final.agents) |-> <<Ev.final.agents[i][1], Ev.final.agents[i][2]>>] = AgentsTo(d.groups, Len(d.groups))
 
 TraceInit == /\ desc = [pre |-> FALSE, post |-> FALSE, systems |-> <<>>, groups |-> <<>>] /\ pc = <<"done", 0, "", 0>>
